@@ -8,7 +8,9 @@ from nauyaca.server.protocol import GeminiServerProtocol
 from nauyaca.server.tls_protocol import TLSServerProtocol
 
 import vf.server  # noqa: F401  (logger/clock/ValueError shims)
-from vf import NoLog
+import asyncio as _asyncio
+
+from vf import NoLog, bind
 from vf.stubs import FakeAsyncio, FakeTransport, MiniLoop
 from vf.tls import StubSSLModule, StubTLSConn
 
@@ -22,8 +24,8 @@ tp.x509_to_cryptography = lambda c: c
 def make_tls(handler, middleware=None, upload=None, conn=None, peer=("192.0.2.7", 50000)):
     loop = MiniLoop()
     fa = FakeAsyncio(loop)
-    sp.asyncio = fa
-    tp.asyncio = fa
+    bind(sp, _asyncio, fa)
+    bind(tp, _asyncio, fa, required=False)
     conn = conn or StubTLSConn()
     SSL_STUB.next_conn = conn
     made = []
